@@ -428,6 +428,54 @@ def match_known(known, ob, key, detail):
 
 
 # ---------------------------------------------------------------------------------------------
+# engine B: Miri
+
+MIRI_SCENARIOS = {
+    "a": "three callers ask a month, its leap twin and a digit twin twice each and compare with LunarMonth::new",
+    "b": "as a, with one caller issuing two caught refusals (month 13, wrong leap month) first",
+    "c": "two callers race on the first use of every lazy static",
+}
+
+
+def miri_run(scenario, flags, timeout=3600):
+    e = env()
+    e["MIRIFLAGS"] = flags
+    p = subprocess.run(["cargo", "+nightly", "miri", "run", "--offline", "--", scenario], cwd=MIRI_DIR, env=e, stdout=subprocess.PIPE, stderr=subprocess.STDOUT, text=True, timeout=timeout)
+    out = p.stdout
+    ok = out.count("scenario %s ok" % scenario)
+    sig = None
+    for pat in ("C10-MISMATCH", "Data race detected", "deadlock"):
+        if pat in out:
+            sig = pat
+            break
+    failing = re.findall(r"(?i)failing seed:?\s*(\d+)", out)
+    return p.returncode, ok, sig, failing, out
+
+
+def run_miri(nseeds):
+    """Returns (stats, violations, harness_errors)."""
+    stats = {"scenarios": {}, "seeds_per_scenario_and_rate": nseeds, "preemption_rates": [0.05, 0.2], "executions_ok": 0, "wall_s": 0}
+    viols = []
+    errs = []
+    t0 = time.time()
+    for sc in MIRI_SCENARIOS:
+        for rate in (0.05, 0.2):
+            flags = "-Zmiri-many-seeds=0..%d -Zmiri-preemption-rate=%s" % (nseeds, rate)
+            try:
+                rc, ok, sig, failing, out = miri_run(sc, flags)
+            except subprocess.TimeoutExpired:
+                errs.append("miri scenario %s rate %s timed out" % (sc, rate))
+                continue
+            stats["scenarios"].setdefault(sc, {"what": MIRI_SCENARIOS[sc], "ok": 0})["ok"] += ok
+            stats["executions_ok"] += ok
+            if sig:
+                viols.append({"scenario": sc, "rate": rate, "signature": sig, "failing_seeds": failing, "output_tail": out[-3000:]})
+            elif rc != 0 or ok != nseeds:
+                errs.append("miri scenario %s rate %s: exit %d, %d/%d executions ok, no violation signature: %s" % (sc, rate, rc, ok, nseeds, out[-600:]))
+    stats["wall_s"] = round(time.time() - t0, 1)
+    return stats, viols, errs
+
+# ---------------------------------------------------------------------------------------------
 # the check
 
 def run_check(tier, seed):
@@ -445,8 +493,9 @@ def run_check(tier, seed):
     for i in range(cfg["sweeps"]):
         out = os.path.join(work, "sweep_%d.json" % i)
         jobs.append(("sweep%d" % i, [BIN, "sweep", "--seed", str(seed), "--index", str(i), "--out", out], out))
-    out = os.path.join(work, "hash.json")
-    jobs.append(("hashorder", [BIN, "hashorder", "--seed", str(seed), "--orders", str(cfg["hash_orders"]), "--out", out], out))
+    for i in range(cfg["hash_orders"] + 1):
+        out = os.path.join(work, "hash_%d.json" % i)
+        jobs.append(("hashorder%d" % i, [BIN, "hashorder", "--seed", str(seed), "--index", str(i), "--out", out], out))
     explore_ids = []
     for (w0, nw, runs, conc) in cfg["explore"]:
         for w in range(w0, w0 + nw):
@@ -495,6 +544,7 @@ def run_check(tier, seed):
     explore = []
     sweeps = []
     hashres = None
+    hashparts = []
     for name, (rc, se, out) in results.items():
         if name.startswith("det"):
             continue
@@ -520,14 +570,25 @@ def run_check(tier, seed):
                 else:
                     cands.append(sweep_candidate(v, d))
         elif d["mode"] == "hashorder":
-            hashres = d
+            hashparts.append(d)
             for v in d["violations"]:
-                if v["obligation"] == "P":
-                    cands.append({"obligation": "P", "key": "", "detail": v["detail"], "history": v["history"], "source": "hashorder"})
-                    continue
-                # as in the hashorder worker: statics initialised under seed 0, then asked under the other seed
-                hist = "run threads=1 policy=seq sched=0 hash=0 reset=1\nt0 q %s\nend\nrun threads=1 policy=seq sched=0 hash=%d reset=1\nt0 q %s\nend\n" % (v["key"], v["hash_seed"], v["key"])
-                cands.append({"obligation": "H", "key": v["key"], "detail": v["detail"], "history": hist, "source": "hashorder"})
+                cands.append({"obligation": "P", "key": "", "detail": v["detail"], "history": v["history"], "source": "hashorder process %d" % d["index"]})
+
+    # hash-order sub-check: every process (own hasher seed from its first instruction on) must give
+    # the answers of process 0 (seed 0, which is also what the cold singleton uses)
+    hashparts.sort(key=lambda d: d["index"])
+    if hashparts and hashparts[0]["index"] == 0 and hashparts[0]["answers"]:
+        base = hashparts[0]
+        hashres = {"orders": len(hashparts) - 1, "processes": len(hashparts), "distinct_iteration_orders": len(set(d["iteration_order_of_12_keys"] for d in hashparts)), "years": 10001, "evaluations": sum(d["evaluations"] for d in hashparts), "queries_per_process": len(base["keys"]), "hash_seeds": [d["hash_seed"] for d in hashparts]}
+        for d in hashparts[1:]:
+            nbad = 0
+            for k, (x, y) in enumerate(zip(base["answers"], d["answers"])):
+                if x != y:
+                    nbad += 1
+                    if nbad <= 2:
+                        key = base["keys"][k]
+                        hist = "run threads=1 policy=seq sched=0 hash=%d reset=1\nt0 q %s\nend\n" % (d["hash_seed"], key)
+                        cands.append({"obligation": "H", "key": key, "detail": "process with hasher seed %d answers %s, with seed 0 %s" % (d["hash_seed"], y, x), "history": hist, "source": "hash-order process %d" % d["index"]})
 
     # determinism self-check
     det_ok = None
@@ -572,6 +633,12 @@ def run_check(tier, seed):
                         cands.append({"obligation": "X", "key": k, "detail": "cross-process: worker %d answered %s, a fresh process answers %s" % (w, ans, coldans), "history": v["history"], "source": "cross-process pool agreement"})
                 break
 
+    miri_stats, miri_viols = None, []
+    if cfg["miri_seeds"] > 0 and not harness:
+        miri_stats, miri_viols, miri_errs = run_miri(cfg["miri_seeds"])
+        harness.extend(miri_errs)
+    MIRI_RESULT["stats"] = miri_stats
+
     if harness:
         write_evidence(tier, seed, t0, explore, sweeps, hashres, det_ok, det_n, cross_compared, cross_keys_multi, [], [], build_s, harness)
         for h in harness:
@@ -614,6 +681,17 @@ def run_check(tier, seed):
             known_hits.append((k, rec))
             continue
         path = os.path.join(REPLAYS, "C10-%d-%d.json" % (seed, len(confirmed)))
+        with open(path, "w") as f:
+            json.dump(rec, f, ensure_ascii=False, indent=1)
+        confirmed.append((path, rec))
+
+    for mv in miri_viols:
+        k = match_known(known, "M", "miri %s" % mv["scenario"], mv["signature"])
+        rec = {"property": "C10", "obligation": "M", "engine": "miri", "query": "miri scenario %s" % mv["scenario"], "scenario": mv["scenario"], "what": MIRI_SCENARIOS[mv["scenario"]], "signature": mv["signature"], "preemption_rate": mv["rate"], "failing_seeds": mv["failing_seeds"], "seed": seed, "tier": tier, "output_tail": mv["output_tail"], "got": {"text": mv["signature"]}, "expected": {"text": "all callers agree with LunarMonth::new; no data race; no deadlock"}, "expected_from": "Miri", "original_ops": 0, "minimised_ops": 0, "replay_cmd": "python3 /verif/check.py C10 --replay <this file>"}
+        if k:
+            known_hits.append((k, rec))
+            continue
+        path = os.path.join(REPLAYS, "C10-%d-miri-%s-%s.json" % (seed, mv["scenario"], str(mv["rate"]).replace(".", "")))
         with open(path, "w") as f:
             json.dump(rec, f, ensure_ascii=False, indent=1)
         confirmed.append((path, rec))
@@ -664,6 +742,9 @@ def sweep_candidate(v, d):
     if hist is None:
         hist = "run threads=1 policy=seq sched=0 hash=0 reset=1\nt0 q %s\nt0 q %s\nend\n" % (key, key)
     return {"obligation": v["obligation"], "key": key, "detail": "sweep %d position %d: got %s, expected %s" % (d["index"], v["position"], v.get("got", "")[:120], v.get("expected", "")[:120]), "history": hist, "source": "sweep %d" % d["index"]}
+
+
+MIRI_RESULT = {"stats": None}
 
 
 def write_evidence(tier, seed, t0, explore, sweeps, hashres, det_ok, det_n, cross_compared, cross_keys_multi, confirmed, known_hits, build_s, harness):
@@ -749,6 +830,7 @@ def write_evidence(tier, seed, t0, explore, sweeps, hashres, det_ok, det_n, cros
         "sweeps": [{"index": s["index"], "valid_months": s["valid_months"], "miss_path": s["miss_path"], "hit_path": s["hit_path"], "invalid_requests": s["invalid_requests"], "wall_s": s["wall_s"]} for s in sweeps],
         "hash_order": {k: hashres[k] for k in ("orders", "distinct_iteration_orders", "years", "evaluations")} if hashres else None,
         "determinism_selfcheck": {"runs_compared": det_n, "identical": det_ok},
+        "engine_B_miri": MIRI_RESULT["stats"] if MIRI_RESULT["stats"] else "not run in this tier",
         "components": {"real": ["all of tyme4rs (built from /repo's working tree with feature verif)", "lazy_static", "regex", "std::sync::Mutex incl. poisoning", "std::thread (real OS threads, released one at a time)"], "simulated": ["choice of the running thread at every yield point", "hash-map iteration order (seeded hasher behind the verif seam)"], "stubbed": []},
         "build_s": round(build_s, 1),
         "runs_that_left_simulator_control_free_run": tot("free_run_runs"),
@@ -777,9 +859,23 @@ def write_evidence(tier, seed, t0, explore, sweeps, hashres, det_ok, det_n, cros
 
 
 def replay_file(path):
-    build()
     with open(path) as f:
         rec = json.load(f)
+    if rec.get("engine") == "miri":
+        seeds = rec.get("failing_seeds") or []
+        if seeds:
+            flags = "-Zmiri-seed=%s -Zmiri-preemption-rate=%s" % (seeds[0], rec["preemption_rate"])
+        else:
+            flags = "-Zmiri-many-seeds=0..16 -Zmiri-preemption-rate=%s" % rec["preemption_rate"]
+        rc, ok, sig, failing, out = miri_run(rec["scenario"], flags)
+        print(out[-3000:])
+        if sig:
+            print("VIOLATION property=C10 replay=%s" % path)
+            print("  reproduced under Miri: scenario %s, %s" % (rec["scenario"], sig))
+            sys.exit(1)
+        print("not reproduced on the current tree: %s" % path)
+        sys.exit(0)
+    build()
     work = os.path.join(ROOT, "work", "replay_%d" % os.getpid())
     sim = Sim(work)
     viol = {"obligation": "P" if rec["obligation"] == "P" else ("R" if rec["obligation"] == "R" else "A"), "key": rec["query"], "detail": rec.get("detail", "")}
